@@ -131,6 +131,11 @@ Fit(R, t) == FitWith(R, t, NA)
 \* the member cell in row i, column j of the target shows its own element
 Member(R, t, i, j) == Fit(R, t)[i][j]
 
+\* ... whatever it is read through: a rectangle of h x w cells whose top left
+\* cell is the member (i0, j0) shows the members' own elements
+Window(R, t, i0, j0, h, w) ==
+  [i \in 1..h |-> [j \in 1..w |-> Member(R, t, i0 + i - 1, j0 + j - 1)]]
+
 --------------------------------------------------------------------------
 (* the scalar application used on the model side: Excel's "+" extended to  *)
 (* any number of operands.  The first error wins, text is #VALUE!.         *)
@@ -316,6 +321,15 @@ MemberOwn ==
   Defined => \A i \in 1..st[1], j \in 1..st[2] :
      /\ Member(res, st, i, j) = cells[i][j]
      /\ cells[i][j][1] \in {"N", "S", "E"}
+
+\* reading the whole target is reading every member; reading a rectangle
+\* that starts at the target's top left cell is the same as entering the
+\* formula over that smaller target (the code evaluates it that way)
+Windows ==
+  Defined =>
+    /\ Window(res, st, 1, 1, st[1], st[2]) = cells
+    /\ \A h \in 1..st[1], w \in 1..st[2] :
+          Window(res, st, 1, 1, h, w) = Fit(res, <<h, w>>)
 
 \* what is shown already has the target's shape: fitting it again is a no-op
 FitIdempotent == Defined => Fit(cells, st) = cells
